@@ -374,6 +374,31 @@ class KindRef:
 
 NP_CONSTS["ndarray"] = KindRef("ndarray")
 
+_GLOBAL_STREAM = [0]
+
+
+def _global_random(*args, size=None, **kw):
+    """numpy's *global* generator: fresh symbols of a stream of its own (never equal to numbers of a generator object)"""
+    if size is None and args and isinstance(args[-1], (tuple, list, int)) and not kw.get("_scalar"):
+        size = args[-1]
+    shp = () if size is None else (tuple(size) if isinstance(size, (tuple, list)) else (int(size),))
+    n = int(np.prod(shp)) if shp else 1
+    out = np.empty(n, dtype=object)
+    for q in range(n):
+        out[q] = sp.Symbol(f"global_rng_{_GLOBAL_STREAM[0] + q}")
+    _GLOBAL_STREAM[0] += n
+    return out.reshape(shp) if shp else out[0]
+
+
+
+
+def _fresh_generator(*seed, **kw):
+    """np.random.default_rng(...): a generator object of its own (a stream unrelated to any generator passed in)"""
+    return Stub("generator", standard_normal=_global_random, normal=_global_random, random=_global_random)
+
+
+NP_CONSTS["random"] = Stub("np.random", standard_normal=_global_random, normal=_global_random, random=_global_random, randn=lambda *shape: _global_random(size=shape), default_rng=_fresh_generator)
+
 
 class Closure:
     def __init__(self, node, env: "Scope", interp: "NpSem"):
@@ -397,6 +422,14 @@ class Scope:
         raise KeyError(name)
 
     def set(self, name, value):
+        if name in getattr(self, "nonlocals", ()):
+            s = self.parent
+            while s is not None:
+                if name in s.vars:
+                    s.vars[name] = value
+                    return
+                s = s.parent
+            raise KeyError(name)
         self.vars[name] = value
 
 
@@ -552,7 +585,10 @@ class NpSem:
                 c = s.exc.func if isinstance(s.exc, ast.Call) else s.exc
                 nm = (_dotted(c) or "").split(".")[-1]
             raise Raised(f"{nm}: {ast.unparse(s)}")
-        elif isinstance(s, (ast.Import, ast.ImportFrom, ast.Pass, ast.Global, ast.Nonlocal)):
+        elif isinstance(s, (ast.Nonlocal, ast.Global)):
+            # assignments to these names go to the enclosing scope that holds them
+            scope.nonlocals = set(getattr(scope, "nonlocals", ())) | set(s.names)
+        elif isinstance(s, (ast.Import, ast.ImportFrom, ast.Pass)):
             if isinstance(s, ast.ImportFrom):
                 for al in s.names:
                     nm = al.asname or al.name
